@@ -143,6 +143,32 @@ def scenario(mode, selected, cut, ending):
                 except OSError:
                     pass
                 time.sleep(0.2)
+        if ending == "reconnect-during-slow-disconnect-handler":
+            # an application handler of the 'disconnected' event takes a while; the peer reconnects at once.  The new
+            # connection must be served completely (forced interleaving of the old connection's disconnect handling with the
+            # next connection - independent of scheduler luck)
+            release = threading.Event()
+            ep.proto._connection.on_disconnected.register(lambda _d: release.wait(1.0))
+            sock.close()
+            sock2 = None
+            t_end = time.time() + 4.0
+            while sock2 is None and time.time() < t_end:
+                try:
+                    sock2 = socket.create_connection(("127.0.0.1", ep.port), timeout=0.5)
+                except OSError:
+                    time.sleep(0.02)
+            time.sleep(0.3)
+            release.set()
+            if sock2 is None or not H.wait_until(lambda: ep.state() in ("CONNECTED_NOT_SELECTED", "CONNECTED_SELECTED"), 4.0):
+                bad["accepts-new-connection"] = f"a peer that reconnects while a disconnect handler is still running is not served (state {ep.state()})"
+            elif not ep.select(sock2, 0x8181):
+                bad["selects-again"] = f"select on the connection made during the slow disconnect handler failed (state {ep.state()})"
+            else:
+                ep.received.clear()
+                sock2.sendall(H.frame(0, 0x0999, 1, 1, True, b""))
+                if not H.wait_until(lambda: (0x0999, 1, 1) in ep.received, 2.0):
+                    bad["first-frame-decoded"] = "data frame on the connection made during the slow disconnect handler was not delivered"
+            sock = sock2 if sock2 is not None else sock
         if ending == "close-disable-enable":
             # the link goes down, the application disables and re-enables the endpoint, the peer connects again
             sock.close()
@@ -212,6 +238,8 @@ def bnd_cuts(tier, seed):
                     if ending != "peer-close" and cut % 3 and tier == "quick":
                         continue
                     jobs.append((mode, selected, cut, ending))
+                if mode == "passive" and (tier == "thorough" or cut in (0, 14)):
+                    jobs.append((mode, selected, cut, "reconnect-during-slow-disconnect-handler"))
     n_eval = 0
     distinct = set()
     suspects = []
